@@ -45,7 +45,7 @@ func (p probeCase) bytes() []byte {
 func C13(c *fw.Ctx) {
 	c.Level = "exploration"
 	c.SetExhaustive(true)
-	c.Rule("breadth-first from a directive-start position in nineteen contexts (file start, after a complete directive, after ')', inside an explicit " +
+	c.Rule("breadth-first from a directive-start position in twenty-two contexts (file start, after a complete directive, after ')', inside an explicit " +
 		"context, after a bare '#' line, after a trailing bare '#', after a '###' block, after a CR-terminated comment, after an annotation with CRLF, after a response / Request / Body whose quoted or bracketed type parameter says that no body follows): every live prefix (neither rejected nor completed) is extended by each of the 256 bytes and by end of file; every completed " +
 		"keyword is followed by each of the 256 bytes and by end of file; oracle = independent list of the 30 keywords and the codes 100-599, " +
 		"terminator set {blank, tab, CR, LF, '#', '/', EOF}; the same word list x 257 followers and ~4000 near misses x 7 terminators are also probed " +
@@ -80,6 +80,9 @@ func C13(c *fw.Ctx) {
 		{"after-enum-and-block-comment", "JSIGHT 0.3\nENUM @e\n[\"a\"] ###\n x\n###\n"},
 		{"after-schema-and-blanks", "JSIGHT 0.3\nTYPE @t\n{\"k\": 1}   \n"},
 		{"after-regex-and-blank-comment", "JSIGHT 0.3\nTYPE @t regex\n/ab+/ # c\n"},
+		{"after-double-hash-comment-with-hash", "JSIGHT 0.3\n## section # one\n"},
+		{"after-trailing-double-hash-comment", "JSIGHT 0.3\nGET /a ## list # all\n"},
+		{"after-double-hash-glued", "JSIGHT 0.3\n##a#b\n"},
 		{"after-parenthesised-description", "JSIGHT 0.3\nGET /a\n  Description\n  (\n    text\n  )\n"},
 	}
 	pool := c.Pool(false, 0)
@@ -157,7 +160,9 @@ func C13(c *fw.Ctx) {
 					}
 					if live {
 						c.Violate("keyword:extra-prefix-live", fmt.Sprintf("context %s: %q is not a prefix of any keyword but the scanner still waits for more", cx.name, word), &fw.Replay{Observed: pr})
-						next[word] = true
+						if len(next) < 2000 { // a scanner that waits after every byte would make the frontier grow 256-fold per level (the driver was killed for its memory)
+							next[word] = true
+						}
 						continue
 					}
 					if rejectedHere && (depth == 0 || len(dead) < 320) {
